@@ -116,6 +116,7 @@ class TransFamily:
         self.live = list(live)
         self.apps = apps            # pid -> [(label, fn(routine_node))]
         self.prepare = prepare      # optional fn(routine_node) before export
+        self.make_exporter = Exporter   # factory (a check may configure the exporter)
 
 
 _FAM = None
@@ -133,7 +134,7 @@ def _build_one(item):
             r = routine_named(psy, fam.routine)
             if fam.prepare:
                 fam.prepare(r)
-            ref = Exporter().routine(r)
+            ref = fam.make_exporter().routine(r)
         except Unsupported as err:
             out.append({"id": cid, "status": "unsupported", "why": "ref: " + str(err)})
             continue
@@ -147,7 +148,7 @@ def _build_one(item):
                         "why": f"{type(err).__name__}: {err}"[:300]})
             continue
         try:
-            new = Exporter().routine(r)
+            new = fam.make_exporter().routine(r)
             case = equiv_case(cid, ref, [new], fam.dom, fam.fills, fam.live)
             text = write(r)
         except Unsupported as err:
